@@ -198,7 +198,7 @@ def run(ctx):
         sm = fn.succ_map()
         for b in sorted(keep):
             t = fn.term(b)
-            if t["k"] == "switch" and any(x not in keep for x in sm[b]):
+            if t["k"] == "switch" and any(x not in keep and fn.term(x)["k"] != "unreachable" for x in sm[b]):
                 yield b, t
     def has_call(e, pred):
         return any(x[0] == "call" and pred(str(x[1])) for x in expr_walk(e))
@@ -238,6 +238,18 @@ def run(ctx):
                               "an odd length, an empty file, or an image that does not fit below 0x10000" % (short(fn_.name), expr_str(e, 120)))
             else:
                 seen_cls.setdefault(tag, []).append(k)
+    # the source path (try_from) adds no refusal of its own before handing its image to from_raw: only a failed emit turns a program away there
+    goal_tf = [b for b, t, c in tf.calls() if c == FROM_RAW]
+    ctx.need(len(goal_tf) == 1, "from_raw call in try_from")
+    for b, t in diverting(tf, goal_tf):
+        e = tf.expr(t["a"], 10)
+        ok_ = e[0] == "discr" and has_call(e, lambda c: c.endswith("Try>::branch")) and has_call(e, lambda c: c.endswith("AsmLine::emit"))
+        ctx.instance(1)
+        ctx.oblig(ok_, None)
+        if not ok_:
+            ctx.violation("extra-rejection|try_from", sp_file_line(t.get("sp")),
+                          "RunEnvironment::try_from turns a program away on `%s` before loading it; the object-file path has no such test, so running a source "
+                          "and running its object file no longer accept the same programs (size limits belong to from_raw, which both share)" % expr_str(e, 140))
     ok = sorted(seen_cls.get("from_raw", [])) == ["does not fit below 0x10000", "empty"] and "odd length" in seen_cls.get("run", [])
     ctx.oblig(ok, {"rejections": {k: sorted(v) for k, v in seen_cls.items()}}, "closed set of documented refusals")
     if not ok:
